@@ -401,3 +401,25 @@ package shwap
 //@   loop 2: invariant forall j int :: rangeindex#2 < j && j < len(shares) ==> computedRoots[j] == (j == 0 ? firstIncompleteRoot : (j == len(shares)-1 ? lastIncompleteRoot : nil))
 //@   loop 3: invariant -1 <= rangeindex#3 && rangeindex#3 < len(expectedRoots)
 //@   loop 3: invariant forall j int :: 0 <= j && j <= rangeindex#3 ==> bytesEq(expectedRoots[j], computedRoots[j])
+
+// ---------------------------------------------------------------------------------------------
+// C18: the stream decoder of a range container places rows and partial-row proofs by position:
+// row i of the stream becomes Shares[i]; the first row's proof is the first-incomplete-row proof,
+// the last row's proof (of a multi-row range) is the last-incomplete-row proof. (The stream itself,
+// length-delimited protobuf, is A-CODEC.)
+
+//@ func (*NamespaceData).ReadFrom
+//@   property C18
+//@   trusted
+//@   modifies nd
+
+//@ func (*RangeNamespaceData).ReadFrom
+//@   property C18
+//@   modifies rngdata
+//@   checks err == nil ==> len(rngdata.Shares) == len(nd) && forall i int :: 0 <= i && i < len(nd) ==> rngdata.Shares[i] == nd[i].Shares
+//@   checks err == nil && len(nd) > 0 ==> rngdata.FirstIncompleteRowProof == nd[0].Proof
+//@   checks err == nil && len(nd) > 1 ==> rngdata.LastIncompleteRowProof == nd[len(nd)-1].Proof
+//@   loop 1: invariant -1 <= rangeindex && rangeindex < len(nd) && len(rngdata.Shares) == len(nd)
+//@   loop 1: invariant forall j int :: 0 <= j && j <= rangeindex ==> rngdata.Shares[j] == nd[j].Shares
+//@   loop 1: invariant rangeindex >= 0 ==> rngdata.FirstIncompleteRowProof == nd[0].Proof
+//@   loop 1: invariant rangeindex >= 1 ==> rngdata.LastIncompleteRowProof == nd[rangeindex].Proof
